@@ -71,6 +71,7 @@ fn lit_v(l: &Lit, line: usize) -> Value {
     Lit::Bool(b) => json!({"k":"bool","v":b.value,"ln":line}),
     Lit::Char(c) => json!({"k":"char","v":c.value().to_string(),"ln":line}),
     Lit::Byte(b) => json!({"k":"int","v":b.value().to_string(),"suf":"u8","ln":line}),
+    Lit::ByteStr(b) => json!({"k":"bytestr","v":b.value(),"ln":line}),
     other => json!({"k":"opaque","what":format!("lit {}", ts(other)),"ln":line}),
   }
 }
